@@ -84,11 +84,12 @@ Inductive case :=
         (impl_defs : list (list (outcome (list def))))    (* route.Parse per command *)
         (impl_tbl : outcome C05.tblobs)                   (* route.NewTable of the whole text *)
 (* one round of the real ServiceMonitor.makeConfig against a fake catalog: [regs] are the catalog
-   entries of the passing instances whose catalog lookup succeeded (services whose lookup fails
-   contribute nothing), [impl] the text it returned *)
+   entries of the passing instances; [lookup_failed]: the catalog lookup of some passing service
+   failed (since /repo c8f84e8 makeConfig then returns an error and nothing is published: the watch
+   loop tries again); [impl_err], [impl]: the error flag and the text it returned *)
 | CConfig (env : env_t) (prefix : str)
           (urls : list (str * option str)) (badglobs : list str) (wlits : list (str * outcome wt))
-          (regs : list reg) (impl : str)
+          (regs : list reg) (lookup_failed : bool) (impl_err : bool) (impl : str)
 (* the library models on their own (strconv.Quote: the model of the code before d16ce3d; np: the
    non-printable runes >= 128 of s, by strconv.IsPrint) *)
 | CExpand (env : env_t) (s impl : str)
@@ -122,19 +123,20 @@ Definition check_case (c : case) : N :=
                      | _, _ => false
                      end) ints idefs
                   && table_spec pw canon gl all itbl in
-      let region := if existsb (F_C14_altering pw canon gl) all then Some 2 else None in
+      let region := if existsb F_C14_altering all then Some 2 else None in
       verdict same spec region (Nat.leb 2 (length all))
-  | CConfig env prefix urls bad wl regs impl =>
+  | CConfig env prefix urls bad wl regs failed ierr impl =>
+      if failed then (let ok := ierr in verdict ok ok None true) else
       let canon := C05.canon_of urls in
       let gl := C05.glob_of bad in
       let pw := C05.pweight_of wl in
       let cmds := map (build pw canon gl env prefix) regs in
       let text := config_text (sort_lines_desc (concat cmds)) in
-      let same := beq impl text && C05.wlits_ok wl in
+      let same := negb ierr && beq impl text && C05.wlits_ok wl in
       (* the pushed text is accepted by NewTable and holds every expressible registration *)
       let all := concat (map (intents env prefix) regs) in
-      let spec := table_spec pw canon gl all (C05.obs_out (new_table pw canon gl impl)) in
-      let region := if existsb (F_C14_altering pw canon gl) all then Some 2 else None in
+      let spec := negb ierr && table_spec pw canon gl all (C05.obs_out (new_table pw canon gl impl)) in
+      let region := if existsb F_C14_altering all then Some 2 else None in
       verdict same spec region (existsb (fun c => match c with [] => true | _ => false end) cmds)
   | CExpand env s impl =>
       let ok := beq impl (expand env s) in
